@@ -53,7 +53,8 @@ def make_case(ctx, idx):
     if ctx.corpus and r.random() < 0.01:
         return {"mode": "corpus", "file": os.path.relpath(r.choice(ctx.corpus), env.PROV_SRC)}
     prof = gen.profile("c08", locals=["e1", "e2", "a1", "x.y"], prefixes=["ex", "ex2", "other", "ex_1"],
-                       ns_uris=["http://ex.org/", "http://ex.org/sub/", "urn:x:"])
+                       ns_uris=["http://ex.org/", "http://ex.org/sub/", "urn:x:"], attr_locals=["tag", "v"],
+                       uris=("http://ex.org/e1", "http://ex.org/e2", "urn:x:a1", "http://ex.org/sub/x.y", "http://x.org/y"))
     return {"mode": "program", "ops": gen.Gen(r, prof).program()}
 
 
@@ -143,7 +144,7 @@ def judge(ctx, idx, case):
         doc = pm.ProvDocument.deserialize(os.path.join(env.PROV_SRC, case["file"]))
         ctx.count("corpus_files")
     else:
-        doc = interp.run(case["ops"]).doc
+        doc = common.build(case["ops"]).doc
     od = strict.ordered(doc)
     problems = []
     judge_container(ctx, doc, "document", problems)
